@@ -258,13 +258,16 @@ class Scheduler(object):
     timer.daemon = True
     _real_start(timer)
     result, exc = None, None
+    swapped = module_locks(*_PROXIED)   # locks the modules under test created at import time become virtual for this run
     try:
+      swapped.__enter__()
       result = fn()
     except SchedulerAbort:
       exc = None
     except BaseException as e:  # pylint: disable=broad-except
       exc = e
     finally:
+      swapped.__exit__(None, None, None)
       timer.cancel()
       self.finish()
     return result, exc
@@ -862,9 +865,14 @@ def install_patches():
     _PATCHED['done'] = True
 
 
+_PROXIED = []
+
+
 def install_proxies(modules):
   """Gives the listed (already imported) modules proxy threading/time/queue/ctypes objects. Idempotent."""
   for mod in modules:
+    if mod not in _PROXIED:
+      _PROXIED.append(mod)
     if hasattr(mod, 'threading'):
       mod.threading = THREADING
     if hasattr(mod, 'time') and not callable(getattr(mod, 'time')):
